@@ -3,7 +3,7 @@
    [dcls_base] - which class derives from which - is GENERATED from collada/common.py. *)
 From Coq Require Import List Bool ZArith NArith.
 From PC Require Import Base.Atoms Base.Xml Base.Outcome Base.Libs Gen.Params Model.Errors Proofs.Errors Model.Refs Proofs.Refs
-     Model.LoadSites Proofs.LoadSites.
+     Model.LoadSites Proofs.LoadSites Model.Skin Model.SkinXml Proofs.LoadSitesCtrl.
 Import ListNotations.
 
 (* isinstance semantics of the ignore mask: the exact class masks; the base class DaeError masks
@@ -201,4 +201,97 @@ Example C08_sites_nonvacuous :
   site_load ns [] KLight lig = Raise PyTypeError /\ guarded ns [] KLight lig = Raise DaeMalformed /\
   site_load ns [] KCamera cam = Raise PyAttributeError /\ guarded ns [] KCamera cam = Raise DaeMalformed /\
   site_load ns [2001%N] KMaterial mat = Raise DaeBrokenRef /\ site_load ns [2000%N] KMaterial mat = Ok tt.
+Proof. vm_compute. repeat split; reflexivity. Qed.
+
+(* ---- the sites that were covered by the fault oracle only: effect shading parameters
+   (_loadShadingParam), primitive inputs and the <triangles> index stream (_getInputs,
+   _getInputsFromList, TriangleSet.load), and controllers (over the C19 family's model). *)
+Theorem C08_only_dae_more_sites :
+  (forall ns x, match guarded_shading_param ns x with Ok _ => True | Raise e => is_dae e = true end) /\
+  (forall ns sc x, match guarded_triangles ns sc x with Ok _ => True | Raise e => is_dae e = true end).
+Proof.
+  split.
+  - intros ns x. apply guard_in_only_dae; [exact effects_boundary|apply good_shading_param].
+  - intros ns sc x. apply guard_in_only_dae; [exact geometry_boundary|apply good_triangles].
+Qed.
+Print Assumptions C08_only_dae_more_sites.
+
+Theorem C08_raw_only_inside_boundary_more :
+  (forall ns x e, load_shading_param ns x = Raise e -> is_dae e = false ->
+     is_rawload e = true /\ has_raw_clause (BLib LEffects) = true /\ guarded_shading_param ns x = Raise DaeMalformed) /\
+  (forall ns sc x e, load_triangles ns sc x = Raise e -> is_dae e = false ->
+     is_rawload e = true /\ has_raw_clause (BLib LGeometry) = true /\ guarded_triangles ns sc x = Raise DaeMalformed).
+Proof.
+  split.
+  - intros ns x e H D.
+    destruct (guard_in_raw (BLib LEffects) (load_shading_param ns x) e effects_boundary (good_shading_param ns x) H D) as [A B].
+    split; [exact A|]. split; [exact effects_boundary|exact B].
+  - intros ns sc x e H D.
+    destruct (guard_in_raw (BLib LGeometry) (load_triangles ns sc x) e geometry_boundary (good_triangles ns sc x) H D) as [A B].
+    split; [exact A|]. split; [exact geometry_boundary|exact B].
+Qed.
+Print Assumptions C08_raw_only_inside_boundary_more.
+
+(* which class the named raw sites raise: int(None), max() of nothing, None[1:], '#' + None.id,
+   the reshape; float(None) and the `'...' + id` of the float branch; 'Missing sampler ' + None *)
+Theorem C08_more_site_classes :
+  (forall i r, xattr a_offset i = None -> parse_offsets (i :: r) = Raise PyTypeError) /\
+  (forall i r a, xattr a_offset i = Some (AStr a) -> parse_offsets (i :: r) = Raise DaeMalformed) /\
+  (forall sc i, xattr a_source i = None -> check_input sc i = Raise PyTypeError) /\
+  (forall sc i s, xattr a_source i = Some (ARef true s) -> sget sc s = None -> check_input sc i = Raise DaeBrokenRef) /\
+  (forall sc i s, xattr a_source i = Some (ARef false s) -> check_input sc i = Raise DaeMalformed) /\
+  (forall sc i s srcs, xattr a_source i = Some (ARef true s) -> sget sc s = Some (SVertices srcs) -> In None srcs ->
+     check_input sc i = Raise PyAttributeError) /\
+  (forall ns sc x p ps, findall ns a_p x = p :: ps -> findall ns a_input x = [] ->
+     load_triangles ns sc x = Raise PyValueError) /\
+  (forall ns x v r, xkids x = v :: r -> is_tag ns a_color v = false -> is_tag ns a_float v = true ->
+     (forall u, parse_float (xtext v) <> Ok u) -> load_shading_param ns x = Raise PyTypeError).
+Proof.
+  split; [intros i r H; simpl; rewrite H; reflexivity|].
+  split; [intros i r a H; simpl; rewrite H; reflexivity|].
+  split; [intros sc i H; unfold check_input; rewrite H; reflexivity|].
+  split; [intros sc i s H1 H2; unfold check_input; rewrite H1, H2; reflexivity|].
+  split; [intros sc i s H; unfold check_input; rewrite H; reflexivity|].
+  split.
+  { intros sc i s srcs H1 H2 H3. unfold check_input. rewrite H1, H2.
+    assert (E : forallb (fun o : option atom => match o with Some _ => true | None => false end) srcs = false).
+    { apply Bool.not_true_is_false. intro F. rewrite forallb_forall in F. specialize (F None H3). discriminate. }
+    rewrite E. reflexivity. }
+  split.
+  { intros ns sc x p ps H1 H2. unfold load_triangles. rewrite H1, H2. reflexivity. }
+  intros ns x v r H1 H2 H3 H4. unfold load_shading_param. rewrite H1, H2, H3.
+  destruct (parse_float (xtext v)) as [u|e]; [exfalso; exact (H4 u eq_refl)|reflexivity].
+Qed.
+Print Assumptions C08_more_site_classes.
+
+(* controllers: the C19 family's model of Controller.load / Skin.load / Morph.load (read-only) already
+   writes DaeMalformed where the Python raises a built-in class; its boundary has the converting
+   clause (GENERATED table), and for EVERY controller element the model returns Ok, a DaeError
+   class or its own "input not covered" marker PyOther *)
+Theorem C08_controller_boundary :
+  has_raw_clause (BLib LControllers) = true /\
+  forall ns nums geoms ctrl,
+    match load_controller ns nums geoms ctrl with
+    | Ok _ => True
+    | Raise e => is_dae e = true \/ e = PyOther
+    end.
+Proof.
+  split; [exact controllers_boundary|].
+  intros ns nums geoms ctrl. pose proof (load_controller_ok ns nums geoms ctrl) as H.
+  destruct (load_controller ns nums geoms ctrl); [exact I|exact H].
+Qed.
+Print Assumptions C08_controller_boundary.
+
+Example C08_more_sites_nonvacuous :
+  let ns := a_ns141 in
+  let p := El 2%N ns a_p [] (Some [TInt 0%Z; TInt 1%Z; TInt 2%Z]) [] in
+  let inp := El 3%N ns a_input [(a_semantic, AStr a_VERTEX); (a_source, ARef true 500%N); (a_offset, AInt 0%Z)] None [] in
+  let inp_nooff := El 3%N ns a_input [(a_semantic, AStr a_VERTEX); (a_source, ARef true 500%N)] None [] in
+  let fl := El 6%N ns a_shininess [] None [El 7%N ns a_float [] (Some [TWord 1000%N]) []] in
+  load_triangles ns [(500%N, SSource)] (El 1%N ns a_triangles [] None [inp; p]) = Ok tt /\
+  load_triangles ns [(500%N, SSource)] (El 1%N ns a_triangles [] None [p]) = Raise PyValueError /\
+  guarded_triangles ns [(500%N, SSource)] (El 1%N ns a_triangles [] None [p]) = Raise DaeMalformed /\
+  load_triangles ns [(500%N, SSource)] (El 1%N ns a_triangles [] None [inp_nooff; p]) = Raise PyTypeError /\
+  load_triangles ns [] (El 1%N ns a_triangles [] None [inp; p]) = Raise DaeBrokenRef /\
+  load_shading_param ns fl = Raise PyTypeError /\ guarded_shading_param ns fl = Raise DaeMalformed.
 Proof. vm_compute. repeat split; reflexivity. Qed.
